@@ -152,6 +152,8 @@ def _field_validator(built, path, vspec):
             raise ValueError("field validator of %s says no" % path)
         if vspec == "boom":
             raise KeyError("field validator of %s exploded" % path)
+        if vspec == "maxlen2" and hasattr(value, "__len__") and len(value) > 2:
+            raise ValueError("field validator of %s: at most 2 entries" % path)
         return value
 
     return validator
